@@ -9,6 +9,7 @@ from mc.core import viol, HarnessError
 ID = 'C12'
 CHUNK = 1
 LEVEL = 'model_checking'
+RECHECK = 4   # cases are whole schedule explorations: fewer of them are re-executed for the determinism check
 RULE = ('the real AsyncRecordOnlyTapeCassette / AsyncRecording with Lock / Event / Thread replaced by scheduler-owned ones; workloads W1..W7 '
         '(1 producer; 1 producer two recordings; 2 producers a recording each; 2 producers writing one recording saved by the closer; 3 '
         'producers one write each; nothing written; producer writing while another saves) x every placement of ONE failing wrapped '
